@@ -343,9 +343,9 @@ def assemble(unit, index, expanded_name='expanded.rs', probe=None, lenient=False
             t = its[0].text
             t = rw.strip_comments_and_attrs(t, fired)
             t = rw.apply_substs(t, unit.substs, fired)
+            # visibility has no semantics for the properties (R8); spec functions need to read fields
+            t = re.sub(r'pub\s*\((?:super|crate|self|in [^)]*)\)', 'pub', t)
             if el['kind'] == 'struct':
-                # field visibility has no semantics for the properties (R8); spec functions need to read fields
-                t = re.sub(r'pub\s*\((?:super|crate|self|in [^)]*)\)', 'pub', t)
                 mt = re.search(r'(struct\s+\w+\s*(?:<[^>]*>)?\s*)\((.*)\)\s*;', t, re.S)
                 if mt:
                     fields = [f.strip() for f in _split_top(mt.group(2)) if f.strip()]
